@@ -395,9 +395,19 @@ def descent_rules(ck, F, S, intrusive, owning, prefix='C08'):
             raise AnalysisBroken(f'no instantiation of {tmpl} with both find and insert')
         picks.append(cands[0])
     comparator_result_rule(ck, F, picks)
-    for tcls in picks:
-        for n_nodes, problems, find0, insert0, ndesc in descent_check(F, tcls):
-            inst = f'{contracts.short(tcls)}/{n_nodes}-node tree'
+    # each flavour twice: as the library instantiates it (comparators returning int), and as the probe unit instantiates it with
+    # a comparator whose result is a comparison category (`<=>`) -- a branch of the utility that depends on the result type
+    # would otherwise never be seen
+    runs = [(tcls, None) for tcls in picks]
+    for tmpl in ('ipr::util::rb_tree::chain', 'ipr::util::rb_tree::container'):
+        pr = sorted({f['parent'] for f in F.fn.values() if f['name'] in ('find', 'insert') and 'ipr_probe::' in f['id']
+                     and (f.get('parent') or '').startswith(tmpl + '<')})
+        if not pr:
+            raise AnalysisBroken(f'the probe instantiation of {tmpl}::find / insert with a comparison-category comparator is missing')
+        runs.append((pr[0], 'ipr_probe::'))
+    for tcls, want in runs:
+        for n_nodes, problems, find0, insert0, ndesc in descent_check(F, tcls, want):
+            inst = f'{contracts.short(tcls)}{" with a three-way comparator" if want else ""}/{n_nodes}-node tree'
             ck.check(R1, inst, not problems[0], f'{tcls}: ' + '; '.join(problems[0]), loc=find0['loc'], fn=insert0['id'],
                      detail={'descents': ndesc})
             ck.check(R2, inst, not problems[1], f'{tcls}: ' + '; '.join(problems[1]), loc=insert0['loc'], fn=insert0['id'])
@@ -434,7 +444,7 @@ def comparator_result_rule(ck, F, picks):
                      detail={'comparator calls': calls, 'held in variables': n})
 
 
-def descent_check(F, tcls):
+def descent_check(F, tcls, want=None):
     """find and insert of one tree class interpreted on explicit trees of 0, 1 and 3 nodes with an uninterpreted comparator:
     yields (size, (descent problems, count/reuse problems), find, insert, number of descents)."""
     S = Sym(F, opaque=lambda fid: F.fn.get(fid) is None)
@@ -442,8 +452,8 @@ def descent_check(F, tcls):
     core = [b['name'] for b in F.rec[tcls]['bases'] if b['name'].startswith('ipr::util::rb_tree::core<')][0]
     N = F.rec[core]['targs'][0]
     own = N.startswith('ipr::util::rb_tree::node<')
-    finds = [f for f in F.fns_in(tcls) if f['name'] == 'find']
-    inserts = [f for f in F.fns_in(tcls) if f['name'] == 'insert']
+    finds = [f for f in F.fns_in(tcls) if f['name'] == 'find' and ((want in f['id']) if want else 'ipr_probe::' not in f['id'])]
+    inserts = [f for f in F.fns_in(tcls) if f['name'] == 'insert' and ((want in f['id']) if want else 'ipr_probe::' not in f['id'])]
     if not finds or not inserts:
         raise AnalysisBroken(f'{tcls}: find or insert is not instantiated')
     for n_nodes in (0, 1, 3):
